@@ -13,7 +13,10 @@ CLAIM = dict(
          "case-folded comparison, every mutator incl. slices), MultiDict / ImmutableMultiDict / CombinedMultiDict "
          "(insertion-ordered dict of lists) and EnvironHeaders (view function of an environ): the HeaderSet representation "
          "invariant over every operation sequence and its refinement to a case-insensitive ordered set, Headers and MultiDict "
-         "read-consistency and mutator laws, refinement of MultiDict / CombinedMultiDict to an insertion-ordered multimap, "
+         "read-consistency and mutator laws, refinement of every MultiDict operation (set / add / setlist / setdefault / "
+         "setlistdefault / update / pop / popitem / poplist / popitemlist / clear / del) to an abstract insertion-ordered multimap "
+         "lifted to every operation sequence (guard: no operation stores an empty row, the known finding), CombinedMultiDict "
+         "read-through, Headers index / slice operations against Python's index normalisation and slice clamping, "
          "immutability (every mutator named by the mixins regenerated from the source returns TypeError and leaves the state "
          "unchanged), the environ view. The case-folded comparison expressions and the mutator-blocking tables are regenerated "
          "from the source on every run; the models are compared with the implementation by differential execution "
@@ -2252,7 +2255,7 @@ def main(chk: Check) -> None:
     except px.Unsupported as e:
         chk.broken("translator", "C08/Gen.v", str(e))
     chk.forbidden_scan()
-    if chk.coq_make(["C08/Proofs.vo", "C08/ProofsMD.vo", "C08/Extract.vo"]):
+    if chk.coq_make(["C08/Proofs.vo", "C08/ProofsMD.vo", "C08/ProofsMM.vo", "C08/Extract.vo"]):
         chk.audit_props("C08/Props.v")
     else:
         chk.cov["obligations"] += 1
